@@ -19,6 +19,7 @@ type Event struct {
 	Names []string `json:"names,omitempty"`
 	Res   string   `json:"res,omitempty"`
 	G     int64    `json:"g"`
+	NF    int      `json:"nf,omitempty"` // file created by the call (exit events)
 }
 
 // Auto is a permissive self-answering controller: every call succeeds (new
@@ -63,10 +64,14 @@ func (a *Auto) paths(c *Call) ([]string, []string) {
 	return p, p2
 }
 
-func (a *Auto) logEv(ev string, c *Call, res string) {
+func (a *Auto) logEv(ev string, c *Call, res string, nf ...int) {
 	p, p2 := a.paths(c)
 	a.seq++
-	a.Log = append(a.Log, Event{Seq: a.seq, Ev: ev, Call: c.Seq, K: c.K, F: c.F, F2: c.F2, Path: p, Path2: p2, Names: c.Names, Res: res, G: c.G})
+	n := 0
+	if len(nf) > 0 {
+		n = nf[0]
+	}
+	a.Log = append(a.Log, Event{NF: n, Seq: a.seq, Ev: ev, Call: c.Seq, K: c.K, F: c.F, F2: c.F2, Path: p, Path2: p2, Names: c.Names, Res: res, G: c.G})
 }
 
 // ModeForName is the file type the permissive backend gives a name.
@@ -119,7 +124,7 @@ func (a *Auto) answer(c *Call) {
 		r = a.defaultResult(c)
 	}
 	a.mu.Lock()
-	a.logEv("exit", c, r.Res)
+	a.logEv("exit", c, r.Res, r.NF)
 	a.mu.Unlock()
 	c.Reply <- r
 }
